@@ -162,6 +162,7 @@ type submission struct {
 type world struct {
 	root, ca, preIssuer *pki.Cert
 	subX509, subPre, subPreIssuer *submission // NotAfter 2025-06: shard 1
+	subPreIssuer2                 *submission // ... under a signing certificate whose CT key usage is one of several
 	subPreSameLeaf                *submission // subPre's precertificate submitted under another issuer certificate
 	subX509Old, subPreOld          *submission // NotAfter 2024-06: shard 0
 
@@ -274,6 +275,17 @@ func newWorld() *world {
 		// what a log ignoring the signing certificate would sign
 		otherChain: ct6962.SignedEntry{EntryType: ct6962.PrecertEntry, IssuerKeyHash: piHash, TBS: defang(p2, nil, nil)},
 		otherIssue: &ct6962.SignedEntry{EntryType: ct6962.PrecertEntry, IssuerKeyHash: piHash, TBS: defang(p2, w.ca.T.Subject, &caAKI)}}
+
+	pi2 := stable(func() *pki.Cert {
+		return pki.NewCA("c12-preissuer-2", pki.LoadKey("p256-5"), w.ca, pki.CAOpts{EKUs: [][]int{pki.OIDEKUServerAuth, pki.OIDEKUCT, pki.OIDEKUClientAuth}})
+	})
+	pi2Hash := pi2.T.Key.KeyHash()
+	p3 := pre("precert-pi2", false, pi2)
+	w.subPreIssuer2 = &submission{name: "precert-via-preissuer-with-several-ekus", pre: true, chain: pki.DERs(p3, pi2, w.ca, w.root),
+		entry:      ct6962.SignedEntry{EntryType: ct6962.PrecertEntry, IssuerKeyHash: caHash, TBS: defang(p3, w.ca.T.Subject, &caAKI)},
+		otherType:  ct6962.SignedEntry{EntryType: ct6962.X509Entry, Cert: p3.DER},
+		otherChain: ct6962.SignedEntry{EntryType: ct6962.PrecertEntry, IssuerKeyHash: pi2Hash, TBS: defang(p3, nil, nil)},
+		otherIssue: &ct6962.SignedEntry{EntryType: ct6962.PrecertEntry, IssuerKeyHash: pi2Hash, TBS: defang(p3, w.ca.T.Subject, &caAKI)}}
 
 	// entries 3 and 4 of the honest log
 	l0 := must(ct6962.AppendMerkleTreeLeaf(nil, ct6962.MerkleTreeLeaf{Version: ct6962.V1, LeafType: ct6962.TimestampedEntryLeaf,
